@@ -745,7 +745,8 @@ def parse_answer(ans):
 # lock probes (real threads; only with the default PicklableLock)
 # ---------------------------------------------------------------------------------------------
 
-PROBE_WAIT = 60.0     # generous: a loaded machine must not turn into a verdict; a real deadlock ends as exit 2
+PROBE_WAIT = 20.0     # generous: a loaded machine must not turn into a verdict; a real deadlock ends as exit 2
+PROBES_OFF = False    # set after the first crossing lock in this process: every further probe would wait again
 
 
 def _in_thread(fn, wait):
@@ -1065,13 +1066,19 @@ def shared_objects(A, C):
 
 
 def lock_probes(case, A, C, K, p, fail):
+    global PROBES_OFF
+    if PROBES_OFF:
+        return
     la, lc, lk = first_lock(A), first_lock(C), first_lock(K)
     # a lock held on the original never blocks the copy …
     with la:
         th, res = _in_thread(probe_event(C), PROBE_WAIT)
         if th.is_alive():
             fail('monitor', 'held-lock-crosses', 'prefix %d: an event on the copy blocks while the ORIGINAL\'s lock is held' % p)
+            PROBES_OFF = True
     th.join(PROBE_WAIT)
+    if PROBES_OFF:
+        return
     try:
         probe_event(K)()
     except Exception:     # noqa: BLE001
@@ -1082,7 +1089,10 @@ def lock_probes(case, A, C, K, p, fail):
         th, res = _in_thread(lambda: A.machine.get_state(first), PROBE_WAIT)
         if th.is_alive():
             fail('monitor', 'held-lock-crosses', 'prefix %d: a call on the original blocks while the COPY\'s lock is held' % p)
+            PROBES_OFF = True
     th.join(PROBE_WAIT)
+    if PROBES_OFF:
+        return
     # … while each machine still honours its own lock, like the un-pickled control does
     blocked = {}
     for nm, rig, lock in (('control', K, lk), ('copy', C, lc)):
@@ -1231,6 +1241,10 @@ def shrink_steps(case):
 
 
 def same_failure(case, clause):
+    global PROBES_OFF, PROBE_WAIT
+    PROBES_OFF = False
+    if clause == 'held-lock-crosses':
+        PROBE_WAIT = 1.5      # reproduction only; the verdict was reached with the long wait
     try:
         res = run_case(case, want_requests=False)
     except common.MachineryError:
